@@ -12,6 +12,9 @@ if os.path.exists(p):
         if 'check' in j: res[(j['seed'], j['check'])] = j
 first = json.load(open(os.path.join(here, 'seeded', 'FIRST_RUN.json')))
 rows = []
+NOTES = {
+ 'C39-stale-imports': 'reported by C39 (multi-argument invocation shapes) on the tree it was written for; the later fix 9b0edd9 (EvalFile resets the collected imports itself - the genuine directory-argument leak the same check found) makes the removed reset in Main redundant, so on the current tree this change no longer alters behaviour and C39 rightly exits 0',
+}
 for d in sorted(glob.glob(os.path.join(here, 'seeded', 'C*-*'))):
     n = os.path.basename(d); prop = n[:3]
     readme = os.path.join(d, 'README.md')
@@ -34,9 +37,10 @@ for d in sorted(glob.glob(os.path.join(here, 'seeded', 'C*-*'))):
         'first_run': first.get(n, 'caught'),
         'final_run': {c: {'exit': r.get('exit'), 'violation_lines': r.get('violation_lines'), 'first_signature': r.get('first_signature')} for c, r in now.items()},
         'detected_by': caught_by,
+        'note': NOTES.get(n, meta.get('note', '')),
     })
     json.dump(meta, open(meta_path, 'w'), indent=1)
-    rows.append((n, first.get(n, 'caught'), ', '.join(caught_by) or 'NOT DETECTED', sig))
+    rows.append((n, first.get(n, 'caught'), ', '.join(caught_by) or ('no longer a behavioural change (see note)' if n in NOTES else 'NOT DETECTED'), sig))
 print('| seeded change | first run of the check | final: detected by | signature (first) |')
 print('|---|---|---|---|')
 for r in rows: print('| %s | %s | %s | `%s` |' % r)
